@@ -2830,12 +2830,17 @@ impl<I: SignedInteger> FromBitStreamUsing for Residuals<I> {
             let partition_order = reader.read::<4, u32>()?;
             let partition_count = 1 << partition_order;
 
+            // the block must divide evenly into the partitions
+            // and the first partition must hold at least one residual
+            let partition_len = match block_size / partition_count {
+                len if block_size % partition_count == 0 && len > predictor_order => len,
+                _ => return Err(Error::InvalidPartitionOrder),
+            };
+
             (0..partition_count)
                 .map(|p| {
                     reader.parse_using(
-                        (block_size / partition_count)
-                            .checked_sub(if p == 0 { predictor_order } else { 0 })
-                            .ok_or(Error::InvalidPartitionOrder)?,
+                        partition_len - if p == 0 { predictor_order } else { 0 },
                     )
                 })
                 .collect()
